@@ -112,6 +112,16 @@ func (p c07) RunBatch(ctx *core.Ctx, batch int) {
 				}
 			}
 		}
+		// every leaf spelling of the large and rare alphabets (ranges with unlike brackets among
+		// them) directly before and directly behind a gap, next to three kinds of neighbour
+		for _, leaf := range append(qt.FullLeaves(), qt.ExtraLeaves()...) {
+			for _, other := range []*qt.Node{qt.F("c", qt.Word("d")), qt.MustNot(qt.T(qt.Phrase("p q"))), qt.Range("z", qt.Int(1), qt.Int(2), true)} {
+				p.checkTree(ctx, qt.And(leaf.Clone(), other.Clone()), ctx.Rand("leafgap"))
+				p.checkTree(ctx, qt.And(other.Clone(), leaf.Clone()), ctx.Rand("leafgap"))
+				p.checkTree(ctx, qt.Or(qt.And(qt.And(other.Clone(), leaf.Clone()), qt.T(qt.Word("w"))), qt.T(qt.Word("v"))), ctx.Rand("leafgap"))
+				ctx.Count("leaf_gap_trees", 3)
+			}
+		}
 		for _, pair := range c07Named {
 			pair := pair
 			ctx.Case(pair[0], func() { c07Compare(ctx, "named", pair[0], pair[1], 1) })
